@@ -481,7 +481,7 @@ theorem owithParenItemsR_fact {j K : Nat} {els : List RWElem} {tc : Bool} {items
 
 omit T OA in
 /-- comprehensions in consecutive windows: the chain of their ranges -/
-theorem chain_seqC : ∀ {gs : List RComp} {lo hi a b : Nat}, SeqG (RSC src) lo hi gs → plainComps gs = true → a ≤ lo →
+theorem chain_seqComps : ∀ {gs : List RComp} {lo hi a b : Nat}, SeqG (RSC src) lo hi gs → plainComps gs = true → a ≤ lo →
     hi ≤ b → lo ≤ hi → chain a (gs.map compRg) b = true
   | [], lo, hi, a, b, _, _, h1, h2, h3 => by simp [chain]; omega
   | .mk rg t i ifs x :: gs, lo, hi, a, b, ⟨m, g1, g2, g3⟩, hp, h1, h2, h3 => by
@@ -489,7 +489,7 @@ theorem chain_seqC : ∀ {gs : List RComp} {lo hi a b : Nat}, SeqG (RSC src) lo 
     obtain ⟨r1, r2, r3, _⟩ := g1.2 (by simp only [Bool.and_eq_true]; exact ⟨⟨hp.1.1.1, hp.1.1.2⟩, hp.1.2⟩)
     have hle := rgOk_le (show rgOk src (rg.1, rg.2) from r1)
     simp only [List.map_cons, compRg, chain, Bool.and_eq_true, decide_eq_true_eq]
-    exact ⟨by omega, chain_seqC g3 hp.2 r3 h2 g2⟩
+    exact ⟨by omega, chain_seqComps g3 hp.2 r3 h2 g2⟩
 
 structure OCo (gs : List RComp) : Prop where
   h : plainComps gs = true → ordComps gs = true
@@ -510,7 +510,7 @@ theorem oe_genExp {j k jc kc jl kl : Nat} {e : RExpr} {gs : List RComp} (h1 : 1 
   have s1 := tSS T c3 c2 h5
   have s2 := tEE T h1 l1 l4
   have s3 := tES T l3 c c4
-  have b := chain_seqC hs hp.2 (Nat.le_refl _) (Nat.le_refl _) (tSE T (by omega) l5 (by omega))
+  have b := chain_seqComps hs hp.2 (Nat.le_refl _) (Nat.le_refl _) (tSE T (by omega) l5 (by omega))
   simp only [ordE, Bool.and_eq_true]
   refine ⟨⟨?_, oe.h hp.1⟩, og.h hp.2⟩
   have b' : chain (S σ jl) (gs.map compRg) (E σ kl) = true := b
